@@ -49,6 +49,7 @@ type thread struct {
 	daemon  bool
 	pc      int // number of points passed
 	stack   string
+	class   string // spawn-site class for symmetry reduction ("" = unique)
 }
 
 // Point is one recorded scheduling decision.
@@ -108,6 +109,15 @@ type Exec struct {
 	// the global state was already fully explored with at least this budget.
 	pruneFn func(key uint64, preUsed, envUsed int) bool
 	Pruned  bool
+	// Symmetry enables symmetry reduction: among enabled threads spawned by the same go
+	// statement that have passed the same number of points, are parked on the same operation
+	// and have acted on the same sequence of shared states (hist), only the lowest id is
+	// offered. Requires StateKey to cover all shared state the threads read.
+	Symmetry bool
+	// SymIdle, if set, says that a thread of a symmetric class parked on this operation carries
+	// no thread-local state (e.g. a worker at the top of its loop): such threads are
+	// interchangeable whatever their history.
+	SymIdle func(op *Op) bool
 }
 
 var cur *Exec
@@ -215,10 +225,22 @@ var InlineGo bool
 
 // Go starts f as a new controlled thread (or a plain goroutine outside an
 // execution). The spawn is a scheduling point for the parent.
-func Go(f func()) { GoNamed("", f) }
+func Go(f func()) {
+	class := ""
+	if cur != nil && cur.Symmetry {
+		// threads spawned by the same go statement are candidates for symmetry reduction
+		var pcs [1]uintptr
+		if runtime.Callers(2, pcs[:]) == 1 {
+			class = fmt.Sprintf("go@%x", pcs[0])
+		}
+	}
+	goNamed("", f, class)
+}
 
 // GoNamed is Go with a thread name for traces.
-func GoNamed(name string, f func()) {
+func GoNamed(name string, f func()) { goNamed(name, f, "") }
+
+func goNamed(name string, f func(), goClass string) {
 	x := cur
 	if x == nil {
 		if InlineGo {
@@ -231,7 +253,11 @@ func GoNamed(name string, f func()) {
 	if name == "" {
 		name = fmt.Sprintf("g%d", len(x.threads))
 	}
-	x.spawn(name, f, false)
+	t := x.spawn(name, f, false)
+	t.class = goClass
+	if goClass != "" {
+		t.pending.Obj = goClass // interchangeable until started
+	}
 	Do(&Op{Kind: "go", Obj: name})
 }
 
@@ -358,9 +384,29 @@ func (x *Exec) loop() {
 				E = append(E, cand{r, a})
 			}
 		}
+		var sigs map[string]bool
 		for _, t := range x.threads {
 			if t == r || t.done || t.pending == nil {
 				continue
+			}
+			if x.Symmetry && x.StateKey != nil && t.class != "" {
+				var h uint64
+				if t.id < len(x.hist) {
+					h = x.hist[t.id]
+				}
+				sig := fmt.Sprintf("%s/%d/%s/%s/%x", t.class, t.pc, t.pending.Kind, t.pending.Obj, h)
+				if x.SymIdle != nil && x.SymIdle(t.pending) {
+					sig = fmt.Sprintf("%s/idle/%s/%s", t.class, t.pending.Kind, t.pending.Obj)
+				}
+				if sigs == nil {
+					sigs = map[string]bool{}
+				}
+				if sigs[sig] {
+					continue // an interchangeable thread with a lower id is already offered
+				}
+				if opEnabled(t.pending) {
+					sigs[sig] = true
+				}
 			}
 			if opEnabled(t.pending) {
 				n := nalt(t.pending)
